@@ -534,6 +534,13 @@ def run_chunk(rec, chunk_id, n_chunks):
                 return ('refuted', 'symbolic execution; native replay', '%s | composition %s | native: %s' % (msg, kd, wit['what']), wit)
             if ob in undec:
                 kd, msg = undec[ob]
+                # the engine could not decide (e.g. unexpected path splits on a changed tree): the independent native reference may still find a witness
+                try:
+                    wit = native_witness(kd, 2, rec.seed)
+                except Exception:
+                    wit = None
+                if wit is not None:
+                    return ('refuted', 'native replay against the independent reference (symbolic execution undecided)', '%s | composition %s | native: %s' % (msg, kd, wit['what']), wit)
                 return ('undecided', 'symbolic execution', '%s | composition %s' % (msg, kd))
             return ('discharged', 'symbolic execution of the real classes + sigma-normal-form/cancel + z3', '%d compositions in this chunk' % n_done)
         rec.run('chunk%02d/%s' % (chunk_id, ob), funcs, 'Pκ', go)
